@@ -1,8 +1,8 @@
 (* C20: the statements pinned in props/C20.v.  The property is proved on the latest-value cell
-   (abs_impl) from the history invariant of NotifiedSpec.v and carried over to the tokio and smol
+   (absZ_impl) from the history invariant of NotifiedSpec.v and carried over to the tokio and smol
    models through the refinements of NotifiedTokio.v / NotifiedSmol.v. *)
 From ZV Require Import Notified.Notified Notified.NotifiedBase Notified.NotifiedTokio
-  Notified.NotifiedSmol Notified.NotifiedSpec.
+  Notified.NotifiedSmol Notified.NotifiedSpec Notified.NotifiedWake.
 Open Scope Z_scope.
 Set Warnings "-unused-intro-pattern".
 
@@ -11,10 +11,12 @@ Set Warnings "-unused-intro-pattern".
 Theorem same_outputs ops : run tokio_impl ops = run smol_impl ops.
 Proof. now rewrite tokio_refines_abs, smol_refines_abs. Qed.
 
-Definition refines_cell (I : impl) : Prop := forall ops, run I ops = run abs_impl ops.
+Definition refines_cell (I : impl) : Prop := forall ops, run I ops = run absZ_impl ops.
 
 Lemma modelled I : I = tokio_impl \/ I = smol_impl -> refines_cell I.
-Proof. intros [-> | ->] ops; [apply tokio_refines_abs | apply smol_refines_abs]. Qed.
+Proof.
+  intros [-> | ->] ops; [rewrite tokio_refines_abs | rewrite smol_refines_abs]; apply abs_refines_absZ.
+Qed.
 
 Theorem next_is_run I ops o :
   run I (ops ++ [o]) = run I ops ++ [next I ops o] /\
@@ -48,8 +50,8 @@ Qed.
 Section Cell.
 Variable ops : list op.
 Variable s : nat.
-Let tr := trace abs_impl ops.
-Let st := final abs_impl ops.
+Let tr := trace absZ_impl ops.
+Let st := final absZ_impl ops.
 
 Lemma cell_inv : Inv tr st.
 Proof. apply Inv_trace. Qed.
@@ -66,17 +68,17 @@ Qed.
 Lemma cell_poll_cases :
   match nth_error (subs st) s with
   | Some (Some k) =>
-      if (k <? a_n (ch st)) then next abs_impl ops (Poll s) = OItem (a_last (ch st)) CTrue
-      else next abs_impl ops (Poll s) = (if a_open (ch st) then OPending else OEnd)
-  | _ => next abs_impl ops (Poll s) = OGone
+      if (k <? a_n (ch st)) then next absZ_impl ops (Poll s) = OItem (a_last (ch st)) CTrue
+      else next absZ_impl ops (Poll s) = (if a_open (ch st) then OPending else OEnd)
+  | _ => next absZ_impl ops (Poll s) = OGone
   end.
 Proof.
-  unfold next. fold st. cbn [step abs_impl ch_poll].
+  unfold next. fold st. cbn [step absZ_impl ch_poll].
   destruct (nth_error (subs st) s) as [[k|]|]; auto.
   unfold a_poll. destruct (k <? a_n (ch st)); reflexivity.
 Qed.
 
-Lemma cell_continues v c : next abs_impl ops (Poll s) = OItem v c -> c = CTrue.
+Lemma cell_continues v c : next absZ_impl ops (Poll s) = OItem v c -> c = CTrue.
 Proof.
   pose proof cell_poll_cases as H.
   destruct (nth_error (subs st) s) as [[k|]|]; try (rewrite H; discriminate).
@@ -102,7 +104,7 @@ Proof.
   destruct (nlive (handles st)); [lia|discriminate].
 Qed.
 
-Lemma cell_end : next abs_impl ops (Poll s) = OEnd -> forall h, handle_live h tr = false.
+Lemma cell_end : next absZ_impl ops (Poll s) = OEnd -> forall h, handle_live h tr = false.
 Proof.
   pose proof cell_poll_cases as H.
   destruct (nth_error (subs st) s) as [[k|]|]; try (rewrite H; discriminate).
@@ -110,7 +112,7 @@ Proof.
   destruct (a_open (ch st)) eqn:Eo; [discriminate|]. intros _. now apply cell_closed_dead.
 Qed.
 
-Lemma cell_pending : next abs_impl ops (Poll s) = OPending -> exists h, handle_live h tr = true.
+Lemma cell_pending : next absZ_impl ops (Poll s) = OPending -> exists h, handle_live h tr = true.
 Proof.
   pose proof cell_poll_cases as H.
   destruct (nth_error (subs st) s) as [[k|]|]; try (rewrite H; discriminate).
@@ -119,7 +121,7 @@ Proof.
 Qed.
 
 Lemma cell_latest :
-  next abs_impl ops (Poll s) = OPending \/ next abs_impl ops (Poll s) = OEnd ->
+  next absZ_impl ops (Poll s) = OPending \/ next absZ_impl ops (Poll s) = OEnd ->
   last_opt (received s tr) = last_opt (sets_after s tr).
 Proof.
   pose proof cell_poll_cases as H.
@@ -130,7 +132,7 @@ Proof.
 Qed.
 
 Lemma cell_gone :
-  next abs_impl ops (Poll s) = OGone ->
+  next absZ_impl ops (Poll s) = OGone ->
   ~ (exists h, In (Subscribe h, OSub s) tr) \/ In (DropSub s, ODone) tr.
 Proof.
   pose proof cell_poll_cases as H.
@@ -143,9 +145,9 @@ Proof.
 Qed.
 
 Lemma cell_settled :
-  match next abs_impl (ops ++ [Poll s]) (Poll s) with OItem _ _ => False | _ => True end.
+  match next absZ_impl (ops ++ [Poll s]) (Poll s) with OItem _ _ => False | _ => True end.
 Proof.
-  unfold next. rewrite final_snoc. fold st. cbn [step abs_impl ch_poll].
+  unfold next. rewrite final_snoc. fold st. cbn [step absZ_impl ch_poll].
   destruct (nth_error (subs st) s) as [[k|]|] eqn:E; cbn [fst snd subs].
   - unfold a_poll at 1 2 3. destruct (Z.ltb_spec k (a_n (ch st))) as [L|L]; cbn [fst snd subs ch].
     + rewrite (nth_error_upd_same _ _ _ _ _ E). unfold a_poll. rewrite Z.ltb_irrefl. cbn.
@@ -157,11 +159,11 @@ Proof.
   - rewrite E. exact I.
 Qed.
 
-Lemma cell_no_panic o : next abs_impl ops o <> OPanic /\ next abs_impl ops o <> OFuel.
+Lemma cell_no_panic o : next absZ_impl ops o <> OPanic /\ next absZ_impl ops o <> OFuel.
 Proof.
   destruct cell_inv as (_ & _ & _ & HN). fold st in HN.
   unfold next. fold st. destruct st as [hs c l nf oc]; cbn [notifier onc] in HN.
-  destruct o as [h x|h|h|t|t|h|h|x| |]; cbn [step abs_impl handles ch subs notifier onc
+  destruct o as [h x|h|h|t|t|h|h|x| |]; cbn [step absZ_impl handles ch subs notifier onc
      ch_set ch_sub ch_poll ch_droprx ch_clone ch_droptx on_notify on_drop on_poll].
   - destruct (nth_error hs h) as [[g|]|]; cbn; split; discriminate.
   - destruct (nth_error hs h) as [[g|]|]; cbn; split; discriminate.
@@ -179,21 +181,21 @@ Qed.
 
 (* operations through a handle: gone exactly when the handle does not exist; set stores and
    returns the value; get returns this handle's own copy *)
-Lemma handle_op_gone (t : state abs_impl) o h : handle_of o = Some h ->
-  (snd (step abs_impl t o) = OGone <-> forall g, nth_error (handles t) h <> Some (Some g)).
+Lemma handle_op_gone (t : state absZ_impl) o h : handle_of o = Some h ->
+  (snd (step absZ_impl t o) = OGone <-> forall g, nth_error (handles t) h <> Some (Some g)).
 Proof.
   intros Ho. destruct o; cbn in Ho; try discriminate; injection Ho as ->;
-    cbn [step abs_impl ch_set ch_sub ch_clone ch_droptx a_set a_sub];
+    cbn [step absZ_impl ch_set ch_sub ch_clone ch_droptx a_set a_sub];
     destruct (nth_error (handles t) h) as [[g|]|]; cbn [snd]; split; intros X; try discriminate;
     try reflexivity; try (intros g' Y; discriminate); exfalso; eapply X; reflexivity.
 Qed.
 
 Lemma cell_handle h :
   (forall o, handle_of o = Some h ->
-             (next abs_impl ops o = OGone <-> handle_live h tr = false)) /\
+             (next absZ_impl ops o = OGone <-> handle_live h tr = false)) /\
   (handle_live h tr = true ->
-   (forall v, next abs_impl ops (Set_ h v) = OSet v) /\
-   (exists g, nth_error (hvals tr) h = Some g /\ next abs_impl ops (Get h) = OGet g)).
+   (forall v, next absZ_impl ops (Set_ h v) = OSet v) /\
+   (exists g, nth_error (hvals tr) h = Some g /\ next absZ_impl ops (Get h) = OGet g)).
 Proof.
   destruct cell_inv as (_ & HH & _ & _). fold st in HH.
   pose proof (InvH_live _ _ h HH) as HL. destruct HH as (_ & _ & _ & Hv).
@@ -203,7 +205,7 @@ Proof.
       exfalso. eapply X; eauto.
     + intros X g Y. assert (handle_live h tr = true) by (apply HL; eauto). congruence.
   - intros L. apply HL in L as [g E]. split.
-    + intros v. cbn [step abs_impl ch_set]. rewrite E. reflexivity.
+    + intros v. cbn [step absZ_impl ch_set]. rewrite E. reflexivity.
     + exists g. split; [now apply Hv|]. cbn [step]. rewrite E. reflexivity.
 Qed.
 End Cell.
@@ -216,34 +218,34 @@ Qed.
 
 (* polling until nothing is left takes at most two polls and ends with the last value set *)
 Lemma cell_converges ops s :
-  (exists h, In (Subscribe h, OSub s) (trace abs_impl ops)) ->
-  ~ In (DropSub s, ODone) (trace abs_impl ops) ->
+  (exists h, In (Subscribe h, OSub s) (trace absZ_impl ops)) ->
+  ~ In (DropSub s, ODone) (trace absZ_impl ops) ->
   exists o1 o2,
-    run abs_impl (ops ++ [Poll s; Poll s]) = run abs_impl ops ++ [o1; o2] /\
-    ((o2 = OPending /\ exists h, handle_live h (trace abs_impl ops) = true) \/
-     (o2 = OEnd /\ forall h, handle_live h (trace abs_impl ops) = false)) /\
-    last_opt (received s (trace abs_impl (ops ++ [Poll s; Poll s]))) =
-    last_opt (sets_after s (trace abs_impl ops)).
+    run absZ_impl (ops ++ [Poll s; Poll s]) = run absZ_impl ops ++ [o1; o2] /\
+    ((o2 = OPending /\ exists h, handle_live h (trace absZ_impl ops) = true) \/
+     (o2 = OEnd /\ forall h, handle_live h (trace absZ_impl ops) = false)) /\
+    last_opt (received s (trace absZ_impl (ops ++ [Poll s; Poll s]))) =
+    last_opt (sets_after s (trace absZ_impl ops)).
 Proof.
   intros Hsub Hnd.
   set (ops1 := ops ++ [Poll s]).
-  set (o1 := next abs_impl ops (Poll s)). set (o2 := next abs_impl ops1 (Poll s)).
+  set (o1 := next absZ_impl ops (Poll s)). set (o2 := next absZ_impl ops1 (Poll s)).
   assert (Eops : ops ++ [Poll s; Poll s] = ops1 ++ [Poll s]).
   { unfold ops1. now rewrite <- app_assoc. }
-  assert (T1 : trace abs_impl ops1 = trace abs_impl ops ++ [(Poll s, o1)]) by apply trace_snoc.
-  assert (T2 : trace abs_impl (ops ++ [Poll s; Poll s]) = trace abs_impl ops1 ++ [(Poll s, o2)]).
+  assert (T1 : trace absZ_impl ops1 = trace absZ_impl ops ++ [(Poll s, o1)]) by apply trace_snoc.
+  assert (T2 : trace absZ_impl (ops ++ [Poll s; Poll s]) = trace absZ_impl ops1 ++ [(Poll s, o2)]).
   { rewrite Eops. apply trace_snoc. }
   exists o1, o2. split.
   { rewrite Eops, run_snoc. unfold ops1. rewrite run_snoc, <- app_assoc. reflexivity. }
-  assert (In1 : forall e, In e (trace abs_impl ops1) -> In e (trace abs_impl ops) \/ e = (Poll s, o1)).
+  assert (In1 : forall e, In e (trace absZ_impl ops1) -> In e (trace absZ_impl ops) \/ e = (Poll s, o1)).
   { intros e H. rewrite T1 in H. apply in_app_or in H as [H|[H|[]]]; auto. }
   assert (C : o2 = OPending \/ o2 = OEnd).
   { pose proof (cell_poll_cases ops1 s) as P. pose proof (cell_settled ops s) as S.
     pose proof (cell_gone ops1 s) as G. fold ops1 in S. fold o2 in P, S, G.
-    destruct (nth_error (subs (final abs_impl ops1)) s) as [[k|]|].
-    - destruct (k <? a_n (ch (final abs_impl ops1))).
+    destruct (nth_error (subs (final absZ_impl ops1)) s) as [[k|]|].
+    - destruct (k <? a_n (ch (final absZ_impl ops1))).
       + rewrite P in S. destruct S.
-      + rewrite P. destruct (a_open (ch (final abs_impl ops1))); auto.
+      + rewrite P. destruct (a_open (ch (final absZ_impl ops1))); auto.
     - exfalso. destruct (G P) as [X|X].
       + apply X. destruct Hsub as [h Hs]. exists h. rewrite T1. apply in_or_app. now left.
       + apply In1 in X as [X|X]; [auto|discriminate].
@@ -263,13 +265,13 @@ Proof.
 Qed.
 
 (* ---------------------------------------------------------------- one-shot on the cell *)
-Lemma frame_once (st : state abs_impl) o :
+Lemma frame_once (st : state absZ_impl) o :
   match o with Notify _ | DropNotifier | PollOnce => True
-  | _ => notifier (fst (step abs_impl st o)) = notifier st /\ onc (fst (step abs_impl st o)) = onc st
+  | _ => notifier (fst (step absZ_impl st o)) = notifier st /\ onc (fst (step absZ_impl st o)) = onc st
   end.
 Proof.
   destruct st as [hs c l nf oc].
-  destruct o as [h x|h|h|t|t|h|h|x| |]; cbn [step abs_impl handles ch subs notifier onc
+  destruct o as [h x|h|h|t|t|h|h|x| |]; cbn [step absZ_impl handles ch subs notifier onc
      ch_set ch_sub ch_poll ch_droprx ch_clone ch_droptx]; auto.
   - destruct (nth_error hs h) as [[g|]|]; cbn; auto.
   - destruct (nth_error hs h) as [[g|]|]; cbn; auto.
@@ -280,21 +282,21 @@ Proof.
   - destruct (nth_error hs h) as [[g|]|]; cbn; auto.
 Qed.
 
-Definition otrace (st : state abs_impl) (ops : list op) : list out :=
-  once_outs (combine ops (run_from abs_impl st ops)).
+Definition otrace (st : state absZ_impl) (ops : list op) : list out :=
+  once_outs (combine ops (run_from absZ_impl st ops)).
 
 Lemma otrace_cons st o ops :
   otrace st (o :: ops) =
-  (if is_pollonce o then [snd (step abs_impl st o)] else []) ++ otrace (fst (step abs_impl st o)) ops.
+  (if is_pollonce o then [snd (step absZ_impl st o)] else []) ++ otrace (fst (step absZ_impl st o)) ops.
 Proof.
-  unfold otrace. cbn [run_from]. destruct (step abs_impl st o) as [st1 r1]. cbn [combine once_outs fst snd].
+  unfold otrace. cbn [run_from]. destruct (step absZ_impl st o) as [st1 r1]. cbn [combine once_outs fst snd].
   destruct o; reflexivity.
 Qed.
 
 Lemma npolls_cons o ops : npolls (o :: ops) = ((if is_pollonce o then 1 else 0) + npolls ops)%nat.
 Proof. unfold npolls. cbn [filter]. destruct (is_pollonce o); reflexivity. Qed.
 
-Lemma once_over ops : forall st : state abs_impl, notifier st = false -> onc st = ADead \/ onc st = AFinished ->
+Lemma once_over ops : forall st : state absZ_impl, notifier st = false -> onc st = ADead \/ onc st = AFinished ->
   otrace st ops = repeat OEnd (npolls ops).
 Proof.
   induction ops as [|o ops IH]; intros st Hn Ho; [reflexivity|].
@@ -304,11 +306,11 @@ Proof.
   destruct o; try (destruct F as [F1 F2]; cbn [is_pollonce app Nat.add]; apply IH; [rewrite F1|rewrite F2]; auto).
   - cbn. apply IH; auto.
   - cbn. apply IH; auto.
-  - cbn [is_pollonce step abs_impl on_poll notifier onc].
+  - cbn [is_pollonce step absZ_impl on_poll notifier onc].
     destruct Ho as [-> | ->]; cbn; f_equal; apply IH; cbn; auto.
 Qed.
 
-Lemma once_armed ops : forall (st : state abs_impl) v, notifier st = false -> onc st = AArmed v ->
+Lemma once_armed ops : forall (st : state absZ_impl) v, notifier st = false -> onc st = AArmed v ->
   otrace st ops = match npolls ops with O => [] | S k => OItem v CFalse :: repeat OEnd k end.
 Proof.
   induction ops as [|o ops IH]; intros st v Hn Ho; [reflexivity|].
@@ -318,11 +320,11 @@ Proof.
   destruct o; try (destruct F as [F1 F2]; cbn [is_pollonce app Nat.add]; apply IH; [rewrite F1|rewrite F2]; auto).
   - cbn. apply IH; auto.
   - cbn. apply IH; auto.
-  - cbn [is_pollonce step abs_impl on_poll notifier onc ao_poll fst snd app Nat.add].
+  - cbn [is_pollonce step absZ_impl on_poll notifier onc ao_poll fst snd app Nat.add].
     f_equal. apply once_over; cbn; auto.
 Qed.
 
-Lemma once_idle ops : forall st : state abs_impl, notifier st = true -> onc st = AIdle ->
+Lemma once_idle ops : forall st : state absZ_impl, notifier st = true -> onc st = AIdle ->
   otrace st ops = once_expect ops.
 Proof.
   induction ops as [|o ops IH]; intros st Hn Ho; [reflexivity|].
@@ -330,16 +332,16 @@ Proof.
   pose proof (frame_once st o) as F.
   destruct st as [hs c l nf oc]; cbn [notifier onc] in *. subst nf oc.
   destruct o; try (destruct F as [F1 F2]; cbn [is_pollonce app once_expect]; apply IH; [rewrite F1|rewrite F2]; auto).
-  - cbn [is_pollonce app once_expect step abs_impl on_notify notifier onc ao_notify fst snd].
+  - cbn [is_pollonce app once_expect step absZ_impl on_notify notifier onc ao_notify fst snd].
     apply once_armed; cbn; auto.
-  - cbn [is_pollonce app once_expect step abs_impl on_drop notifier onc ao_drop fst snd].
+  - cbn [is_pollonce app once_expect step absZ_impl on_drop notifier onc ao_drop fst snd].
     apply once_over; cbn; auto.
-  - cbn [is_pollonce step abs_impl on_poll notifier onc ao_poll fst snd app once_expect].
+  - cbn [is_pollonce step absZ_impl on_poll notifier onc ao_poll fst snd app once_expect].
     f_equal. apply IH; cbn; auto.
 Qed.
 
-Lemma cell_once ops : once_outs (trace abs_impl ops) = once_expect ops.
-Proof. apply (once_idle ops (init abs_impl)); reflexivity. Qed.
+Lemma cell_once ops : once_outs (trace absZ_impl ops) = once_expect ops.
+Proof. apply (once_idle ops (init absZ_impl)); reflexivity. Qed.
 
 (* the closed form, split at the first use of the notifier *)
 Lemma expect_unresolved pre : unresolved pre -> once_expect pre = repeat OPending (npolls pre).
@@ -366,9 +368,9 @@ Section Models.
 Variable I : impl.
 Hypothesis HI : refines_cell I.
 
-Lemma m_trace ops : trace I ops = trace abs_impl ops.
+Lemma m_trace ops : trace I ops = trace absZ_impl ops.
 Proof. now apply trace_eq. Qed.
-Lemma m_next ops o : next I ops o = next abs_impl ops o.
+Lemma m_next ops o : next I ops o = next absZ_impl ops o.
 Proof. now apply next_eq. Qed.
 
 Theorem subsequence_latest ops s :
@@ -429,8 +431,44 @@ End Models.
 
 (* ---------------------------------------------------------------- the pinned forms *)
 Theorem latest_value_cell ops :
-  run tokio_impl ops = run abs_impl ops /\ run smol_impl ops = run abs_impl ops.
-Proof. split; [apply tokio_refines_abs | apply smol_refines_abs]. Qed.
+  run tokio_impl ops = run abs_impl ops /\ run smol_impl ops = run abs_impl ops /\
+  run abs_impl ops = run absZ_impl ops.
+Proof. split; [apply tokio_refines_abs | split; [apply smol_refines_abs | apply abs_refines_absZ]]. Qed.
+
+(* ---------------------------------------------------------------- wake-ups *)
+Lemma model_wake_facts I : I = tokio_impl \/ I = smol_impl ->
+  (forall ops, run I ops = run abs_impl ops) /\
+  (forall ops s, parked I ops s = parked abs_impl ops s) /\
+  (forall ops o, woken I ops o = woken abs_impl ops o).
+Proof.
+  intros [-> | ->].
+  - split; [exact tokio_refines_abs|]. split; [exact tokio_parked_abs | exact tokio_woken_abs].
+  - split; [exact smol_refines_abs|]. split; [exact smol_parked_abs | exact smol_woken_abs].
+Qed.
+
+Theorem wakeup_models I : I = tokio_impl \/ I = smol_impl ->
+  (forall ops s, next I ops (Poll s) = OPending -> parked I (ops ++ [Poll s]) s = true) /\
+  (forall ops s, parked I ops s = true -> next I ops (Poll s) = OPending) /\
+  (forall ops s o, parked I ops s = true ->
+     parked I (ops ++ [o]) s = true \/ In s (woken I ops o) \/ o = DropSub s) /\
+  (forall ops s rest,
+     next I ops (Poll s) = OPending ->
+     (forall o, In o rest -> o <> Poll s /\ o <> DropSub s) ->
+     next I (ops ++ Poll s :: rest) (Poll s) <> OPending ->
+     exists pre o post, rest = pre ++ o :: post /\ In s (woken I (ops ++ Poll s :: pre) o)).
+Proof.
+  intros H. destruct (model_wake_facts I H) as (Hr & Hp & Hw).
+  assert (W1 : forall ops s, next I ops (Poll s) = OPending -> parked I (ops ++ [Poll s]) s = true).
+  { intros ops s. rewrite (next_eq I abs_impl Hr), Hp. apply cell_pending_parked. }
+  assert (W3 : forall ops s, parked I ops s = true -> next I ops (Poll s) = OPending).
+  { intros ops s. rewrite (next_eq I abs_impl Hr), Hp. apply cell_parked_pending. }
+  split; [exact W1|]. split; [exact W3|]. split.
+  - intros ops s o. apply parked_or_woken.
+  - intros ops s rest. now apply wake_before_ready.
+Qed.
+
+Theorem same_wakes ops : wakes tokio_impl ops = wakes smol_impl ops.
+Proof. now rewrite tokio_wakes_abs, smol_wakes_abs. Qed.
 
 Theorem subsequence_latest_models I : I = tokio_impl \/ I = smol_impl ->
   forall (ops : list op) (s : nat),
